@@ -42,19 +42,8 @@ struct V1 : public VoidApply1Functor<V1, Val> { unsigned seen, twice; V1() : see
 struct V2 : public VoidApply2Functor<V2, Val, Val> { unsigned seen, twice; V2() : seen(0), twice(0) {}
   void ApplyOperation(const Val& a, const Val& b) { unsigned m = 1u << (a * NVAL + b); twice |= seen & m; seen |= m; } };
 
-// ---- a drawn operand: its table (the reference semantics), its default value and how it is built
-struct Fun {
-  char src; Tab t; Val dflt; Cube c; Val value;
-  void draw(char s) {
-    src = s; dflt = 0;
-    if (s == 'T') t.draw();
-    else if (s == 'C') { c.draw(); value = vs_range(NVAL); t = c.tab(value, 0); }
-    else { value = vs_range(NVAL); t.fill(value); dflt = value; }
-  }
-  MTBDD make(unsigned order) const { return src == 'T' ? build(t, 0, order) : src == 'C' ? MTBDD(c.asgn(), value, 0) : MTBDD(value); }
-};
 static inline unsigned drawOp() { return OPSEL >= 0 ? (unsigned)(OPSEL) : vs_range(4); }
-static void same(const MTBDD& m, const Tab& t, int id) { Tab d = decode(m); for (unsigned a = 0; a < NA; ++a) CHECK(d.v[a] == t.v[a], id); }
+static void same(const MTBDD& m, const Tab& t, int id) { sameFunction(m, t, id); }
 
 extern "C" void harness(void)
 {
